@@ -204,6 +204,13 @@ class NormalTmpFileAssignmentLoader(BaseTmpFileAssignmentLoader):
         elif self.is_read_assignment():
             assert self.current_gene_info is not None
             assignment = ReadAssignment.deserialize(self.loader, self.current_gene_info)
+            if self.chr_record and assignment.exons:
+                # reads may extend beyond the gene(s): keep the reference window wide enough for all of them
+                gene_info = self.current_gene_info
+                region_start = min(gene_info.all_read_region_start, assignment.exons[0][0])
+                region_end = max(gene_info.all_read_region_end, assignment.exons[-1][1])
+                if region_start < gene_info.all_read_region_start or region_end > gene_info.all_read_region_end:
+                    gene_info.set_reference_sequence(region_start, region_end, self.chr_record)
             self._read_id()
             return assignment
         else:
